@@ -22,6 +22,16 @@ regex_gen_ok = z3.Function("regex_gen_ok", M.S, M.B)   # pattern lies in the gen
 
 
 # ----------------------------------------------------------------------------- Random
+@contract(RND, "Random.set_seed", props=("C17",), group="generator")
+def _set_seed(c):
+    """C17: the stream is seeded with a value that is a function of the argument only (obligation `seed-reproducible`
+    at the random.seed() call); an unsupported seed type is random.seed's own TypeError"""
+    c.sym("self", "Random")
+    c.sym("seed")
+    c.raises("TypeError")
+    c.reproducible()
+
+
 @contract(RND, "Random.random_int", props=("C01", "C17"), group="generator")
 def _random_int(c):
     c.declare("self", "Random")
